@@ -208,6 +208,8 @@ charconst(struct scanner *s)
 		case '\'':
 			nextchar(s);
 			return TCHARCONST;
+		case '\0':
+			error(&s->loc, "null byte in character constant");
 		case '\n':
 			error(&s->loc, "newline in character constant");
 		case EOF:
@@ -232,6 +234,8 @@ stringlit(struct scanner *s)
 		case '"':
 			nextchar(s);
 			return TSTRINGLIT;
+		case '\0':
+			error(&s->loc, "null byte in string literal");
 		case '\n':
 			error(&s->loc, "newline in string literal");
 		case EOF:
